@@ -389,6 +389,14 @@ def _k1(ctx: Context) -> None:
             src = ctx.const(rf, n.value.slice, None)
             if isinstance(kw, str) and isinstance(src, str):
                 R[src] = kw
+            else:
+                # key and keyword held in locals (one row of a table of (json key, keyword) pairs): by value at that statement
+                rcfg = ctx.cfg(rf.qualname)
+                for cn in rcfg.nodes:
+                    if cn.kind == "stmt" and cn.ast is n:
+                        tk, ts = T.of(rcfg, cn, n.targets[0].slice), T.of(rcfg, cn, n.value.slice)
+                        if tk[0] == "const" and ts[0] == "const" and isinstance(tk[1], str) and isinstance(ts[1], str):
+                            R[ts[1]] = tk[1]
         if isinstance(n, ast.Call) and isinstance(n.func, ast.Attribute) and n.func.attr == "add_char":
             add_char_calls.append(n)
         if isinstance(n, ast.Call) and isinstance(n.func, ast.Attribute) and n.func.attr == "set_value" and n.args and isinstance(n.args[0], ast.Subscript):
@@ -622,6 +630,17 @@ def _k1(ctx: Context) -> None:
         if isinstance(x, ast.Call) and isinstance(x.func, ast.Attribute) and x.func.attr == "load_pairing" and len(x.args) == 2:
             a0, a1 = x.args
             if isinstance(a1, ast.Subscript) and _u(a1.slice) == _u(a0):
+                okl = True
+    # by value (through temporaries / parameters of an inlined helper): the record is <data>[<alias>] for the alias iterated
+    # over <data>, or the two halves of one item of <data>.items()
+    lcfg = ctx.cfg(ld.qualname)
+    for n, c in ctx.nodes_calling_name(lcfg, "load_pairing"):
+        if len(c.args) == 2:
+            t0, t1 = strip_sites(T.of(lcfg, n, c.args[0])), strip_sites(T.of(lcfg, n, c.args[1]))
+            if t1[0] == "sub" and len(t1) == 3 and t1[2] == t0 and t0[0] in ("iter", "each") and t0[1] == t1[1]:
+                okl = True
+            if t0[0] == "sub" and t1[0] == "sub" and t0[1] == t1[1] and t0[1][0] in ("iter", "each") and t0[2] == ("const", 0) and t1[2] == ("const", 1) \
+                    and t0[1][1][0] == "call" and t0[1][1][1][0] == "attr" and t0[1][1][1][2] == "items":
                 okl = True
     ck.check("C20.K1", okl, "load_data feeds (alias, data[alias]) to load_pairing", f"{ctx.fkey(ld)}:record",
              "load_data no longer loads every alias with its own record", ld.loc())
